@@ -138,12 +138,36 @@ def run(ctx):
     strs = list(dict.fromkeys(composed(rng, n)))
     ops2 = ["utf8.isutf8 " + hx(s) for s in strs]
     ops2 += ["utf8.isutf8 " + hx(w) for w in itertools.islice(iter(seen), 0, 70000)]
+    # mostly-ASCII strings with one or two ill-formed bytes at every position, at every address modulo 8 (the verdict
+    # may not depend on where the bytes sit in memory: word-at-a-time / vectorised scanning)
+    asc = b"The quick brown fox jumps over the lazy dog 0123456789"
+    for L in list(range(1, 27)) + [31, 32, 33, 40, 48]:
+        for pos in range(L):
+            for al in range(8):
+                if ctx.tier == "quick" and L > 18 and (pos + al + L) % 3:
+                    continue
+                for bad_byte in (0xE9, 0x80, 0xFF):
+                    b = bytearray(asc[:L])
+                    b[pos] = bad_byte
+                    ops2.append(f"utf8.isutf8 {hx(bytes(b))} {al}")
+                if pos + 8 < L:
+                    b = bytearray(asc[:L])
+                    b[pos] = 0xC3
+                    b[pos + 8] = 0xA9          # two bytes one word apart: lead without trail, trail without lead
+                    ops2.append(f"utf8.isutf8 {hx(bytes(b))} {al}")
+    ops2 += [f"utf8.isutf8 {hx(s)} {rng.randrange(8)}" for s in strs[:3000] if s]
     bad2, a2, b2 = pvlib.diff_streams(ctx, "utf8.isutf8", ops2)
     ctx.cov["isutf8_true"] = sum(1 for x in a2 if x == "true")
     ctx.cov["isutf8_false"] = sum(1 for x in a2 if x == "false")
     judge(ctx, "utf8.isutf8", bad2)
     # 3. the tool: remove_invalid_utf8 keeps exactly the well-formed lines, unchanged
     lines = [s for s in strs if b"\n" not in s and not s.endswith(b"\r")][:5000]
+    # single stray bytes in ASCII lines at every offset of the reader's buffer modulo 8 (padding lines shift the offset)
+    for i in range(600 if ctx.tier == "quick" else 6000):
+        lines.append(b"p" * rng.randrange(0, 9))
+        b = bytearray(asc[:rng.randrange(1, 40)])
+        b[rng.randrange(len(b))] = rng.choice([0xE9, 0x80, 0xFF, 0xC3])
+        lines.append(bytes(b))
     st, out, err = pvlib.run_tool([ctx.bin("remove_invalid_utf8")], b"".join(l + b"\n" for l in lines),
                                   env=pvlib.san_env())
     spec = pvlib.run_lines(pvlib.PVDRIVER, ["utf8.spec.isutf8 " + hx(l) for l in lines])
